@@ -57,6 +57,10 @@ type world struct {
 }
 
 func (w *world) violate(key, format string, args ...any) {
+	// when serving C05 only the consumer-order oracle counts (acceptance order, recovered chunks first); the rest is C03
+	if propFlag == "C05" && key != "order" {
+		return
+	}
 	msg := fmt.Sprintf(format, args...)
 	w.viol = append(w.viol, msg)
 	if w.violKey == "" {
@@ -64,6 +68,8 @@ func (w *world) violate(key, format string, args ...any) {
 	}
 	vsched.Note("VIOLATION %s: %s", key, msg)
 }
+
+var propFlag = "C03"
 
 var logs = &hutil.LogCapture{}
 var flagLogs = flag.Bool("logs", false, "echo agent logs")
@@ -448,6 +454,11 @@ func scenarios() []*explore.Scenario {
 		o.gens = [][]int{{4, 1, 9, 1, 4}, {1}}
 		o.name = fmt.Sprintf("dir/mem%d/q2/max1000/overflow", mem)
 		add(o, 1, 2)
+		// many small chunks against a tiny queue AND a small size limit: dropped-but-kept files must stay accounted
+		q := params{memCap: mem, queueCap: 2, maxBuf: 10, dirOK: true, consumerAlt: 3}
+		q.gens = [][]int{{1, 1, 1, 1, 1, 1, 1, 1, 1, 1, 1, 1, 1, 1}, {1}}
+		q.name = fmt.Sprintf("dir/mem%d/q2/max10/many-small", mem)
+		add(q, 1, 2)
 		// longer first generation, three generations
 		p := params{memCap: mem, queueCap: 50, maxBuf: 10, dirOK: true, consumerAlt: 5}
 		p.gens = [][]int{{4, 4, 1, 4}, {1}, {}}
@@ -463,10 +474,16 @@ func scenarios() []*explore.Scenario {
 }
 
 func main() {
+	for i, a := range os.Args {
+		if a == "-prop" && i+1 < len(os.Args) {
+			propFlag = os.Args[i+1]
+		}
+	}
+	flag.String("prop", "C03", "property id (C03, or C05 for the order oracle only)")
 	logger.SetLogLevel(logger.InfoLevel)
 	logger.SetOutput(logs)
 	explore.Main(&explore.Config{
-		Property:  "C03",
+		Property:  propFlag,
 		Level:     "model_checking",
 		Scenarios: scenarios(),
 		Rule: "stateless DFS over schedules of the real hybridbuffer (driver Accept/Destroy, feeder goroutine, scripted consumer, consumer-finished waiters) and consumer behaviours " +
